@@ -439,6 +439,10 @@ def _run(args, pid, seed, jobs, t0, treedir, mod, subs, workdir):
     # ---- committed regression replays + reproducers of open findings ----------------
     rtasks = []
     reg = sorted(glob.glob(os.path.join(HERE, "replays", "regress", "%s-*.json" % pid)))
+    if os.environ.get("VERIF_NO_REGRESS"):
+        # sensitivity measurements only: does the *generated* search find a re-introduced defect
+        # without the pinned replay?  Never set by the registered commands.
+        reg = []
     for i, path in enumerate(reg):
         with open(path) as fh:
             doc = json.load(fh)
